@@ -248,6 +248,13 @@ structure RState where
   desc : Option Desc := none      -- extractor's local `desc`
   content : Bytes := []           -- extractor's `fileContent`
   writes : List (Str × Bytes) := []
+  keep : Option Str := none       -- the archive being read: the extractor refuses to write over it
+
+/-- the path about to be written is the archive being read (`os.path.abspath` of both are equal) -/
+def collides (keep : Option Str) (path : Str) : Bool :=
+  match keep with
+  | some a => samePath path a
+  | none => false
 
 /-- does `open(path, "wb")` succeed for this file name in an existing directory? -/
 def openable (name : Str) : Bool := name != [46] && name != [46, 46] && !name.contains 0 && !name.isEmpty
@@ -269,6 +276,7 @@ def readStep (extract : Bool) (targetDir : Str) (s : RState) (raw : Bytes) : RSt
       | some d =>
         let fname := d.name ++ [46] ++ d.ext
         if fname.contains 47 then (s, some (.valueError "invalid.file.name"))
+        else if collides s.keep (pathJoin targetDir fname) then (s, some (.valueError "would.overwrite.the.archive"))
         else if fname.contains 0 then (s, some (.valueError "embedded null byte"))
         else if !openable fname then (s, some (.osError "IsADirectoryError"))
         else
@@ -305,7 +313,7 @@ def targetDirOf (archive : Str) (into : Option Str) : Str :=
 /-- `TapeImageContentExtractor.perform` -/
 def extract (verbose : Bool) (archive : Str) (into : Option Str) (tape : Bytes) : Outcome :=
   let targetDir := targetDirOf archive into
-  let (st, s) := readLoop true targetDir { l := { verbose := verbose } } (readAll tape)
+  let (st, s) := readLoop true targetDir { l := { verbose := verbose }, keep := some archive } (readAll tape)
   { status := st, out := s.out, mkdirs := if targetDir.isEmpty then [] else [targetDir], writes := s.writes }
 
 end Moto.Tape
